@@ -29,6 +29,7 @@ from hypothesis import strategies as st
 
 from ..core import Clause, Violation, require
 from .. import gens
+from .. import gens_c14 as g14
 from ..oracles import crystal_match as cm
 from ..oracles import surface_ref as sr
 
@@ -102,6 +103,8 @@ WALL = {'quick': 75, 'thorough': 600}
 K_PARALLEL = 'C14:free_surface_basis:parallel-inplane-rows'
 K_SCALE = 'C14:free_surface_basis:absolute-isclose-inplane-test:cell-not-angstrom-scale'
 K_AVECT = 'C14:StackingFault:avect_uvw-inplane-test-absolute:cell-not-angstrom-scale'
+K_SIZEMULTS = 'C14:surface:sizemults-written-in-place:tuple-refused-or-callers-list-edited'
+K_SHIFT = 'C14:set_shift:shift-is-the-callers-array-or-a-row-of-shifts'
 CUTIDX = {'a': 0, 'b': 1, 'c': 2}
 FAMILIES = gens.FAMILIES
 
@@ -125,16 +128,59 @@ def scale_labels(cell):
     return out
 
 
+def class_labels(cell):
+    """labels of the cell classes carried over from the seeded rounds (G exact images, E near-symmetric)"""
+    out = set()
+    if cell.get('perm'):
+        out |= {'sym', 'sym_perm'}
+    if cell.get('relabel'):
+        out |= {'sym', 'sym_relabel'}
+    if cell.get('pert'):
+        out.add('near_sym')
+        out.add('near_sym_tiny' if int(cell['pert']['e']) <= -11 else 'near_sym_visible')
+    return out
+
+
 def cell_txt(cell):
     k = int(cell.get('lscale') or 0)
-    return '%r%s' % (cell['abc'], ' [lengths x 1e%d]' % k if k else '')
+    extra = ''
+    if cell.get('pert'):
+        extra += ' [parameters x (1 + 1e%d x %r)]' % (cell['pert']['e'], cell['pert']['v'])
+    if cell.get('relabel'):
+        extra += ' [vectors renamed cyclically by %d]' % cell['relabel']
+    if cell.get('perm'):
+        extra += ' [Cartesian axes permuted %r signs %r]' % tuple(cell['perm'])
+    return '%r%s%s' % (cell['abc'], ' [lengths x 1e%d]' % k if k else '', extra)
+
+
+def cell_abc(cell):
+    """lattice parameters of the case; `pert` (class E, near-threshold) takes a cell of a crystal family 1e-12 ... 1e-3 (relative)
+    off its special values: almost-equal lengths, almost-right / almost-120-degree angles, almost-zero tilts"""
+    abc = [float(x) for x in cell['abc']]
+    pt = cell.get('pert')
+    if pt:
+        d = 10.0 ** int(pt['e'])
+        abc = [x * (1.0 + d * float(v)) for x, v in zip(abc, pt['v'])]
+    return abc
 
 
 def cell_vconv(cell):
-    lx, ly, lz, xy, xz, yz = gens.abc_to_lammps(*cell['abc'])
+    lx, ly, lz, xy, xz, yz = gens.abc_to_lammps(*cell_abc(cell))
     V = np.array([[lx, 0.0, 0.0], [xy, ly, 0.0], [xz, yz, lz]], dtype=float)
+    if cell.get('pert'):
+        # Box zeroes every component below 1e-9 of the largest one when the vectors are set (modelled, the generator stays off
+        # the threshold itself): the cell atomman works with is the cleaned one
+        V[np.abs(V) <= 1e-9 * np.abs(V).max()] = 0.0
+    if cell.get('relabel'):
+        # class G: the same lattice with its vectors renamed cyclically (a b c -> b c a / c a b): a cell that is not in the
+        # lower-triangular normal form although nothing was rotated
+        V = np.roll(V, -int(cell['relabel']), axis=0)
     if cell.get('rot'):
         V = V @ gens.rotation_matrix(*cell['rot']).T
+    if cell.get('perm'):
+        # class G: an exact proper signed permutation of the Cartesian axes (no rounding): axis-aligned but not in normal form
+        p, sg = cell['perm']
+        V = V[:, [int(i) for i in p]] * np.array([float(x) for x in sg])
     return V * cell_S(cell)
 
 
@@ -267,11 +313,15 @@ def scale_diagnosis(am, hkl, cell, cut, ret_hex=None, retry=False):
             % (hkl, cell['family'], cell.get('setting', 'p'), cell_txt(cell), cut, s1[1], cell['abc'], s0[1]))
 
 
-def basis_one(am, hkl, box, Vp, setting, cut, ret_hex, what, cell=None):
-    """returns status in {'ok','refusal','parallel'} and rows (or None)"""
+def basis_one(am, hkl, box, Vp, setting, cut, ret_hex, what, cell=None, got=None, arg=None):
+    """returns status in {'ok','refusal','parallel'} and rows (or None); the raw (uvws, normal) of every successful call is
+    appended to `got`"""
     expect4 = (len(hkl) == 4) if ret_hex is None else bool(ret_hex)
+    arg = hkl if arg is None else arg           # the object the caller hands in (class C forms); judged against the plain ints
     try:
-        out = call_basis(am, hkl, box, cut, setting, ret_hex)
+        out = call_basis(am, arg, box, cut, setting, ret_hex)
+        if got is not None:
+            got.append(out)
     except AssertionError as e:
         if not _is_refusal(e):
             raise
@@ -289,7 +339,9 @@ def basis_one(am, hkl, box, Vp, setting, cut, ret_hex, what, cell=None):
                 continue
             tried.append(mi)
             try:
-                out = call_basis(am, hkl, box, cut, setting, ret_hex, maxindex=mi)
+                out = call_basis(am, arg, box, cut, setting, ret_hex, maxindex=mi)
+                if got is not None:
+                    got.append(out)
             except AssertionError as e2:
                 if not _is_refusal(e2):
                     raise
@@ -312,20 +364,43 @@ def basis_one(am, hkl, box, Vp, setting, cut, ret_hex, what, cell=None):
         raise
 
 
+def hkl_arg(form, hkl):
+    """the plane indices the way the caller hands them in (class C); None: a plain list as before"""
+    return list(hkl) if not form else g14.int_arg(form, hkl)
+
+
+def form_labels(prefix, form):
+    if not form or form == 'list':
+        return set()
+    out = {prefix + '_form'}
+    if form in g14.NARROW_INT:
+        out.add(prefix + '_narrow')
+    elif form in ('f8', 'f4', 'f2', 'bef8'):
+        out.add(prefix + '_float')
+    elif form in ('ro', 'strided', 'rev'):
+        out.add(prefix + '_layout')
+    return out
+
+
 def oracle_basis(case):
     import atomman as am
     cell = case['cell']
     setting = cell.get('setting', 'p')
     Vp = cell_vprim(cell)
     box = am.Box(vects=Vp)
-    labels = {cell['family'], 'setting_' + setting} | scale_labels(cell)
+    labels = {cell['family'], 'setting_' + setting} | scale_labels(cell) | class_labels(cell)
     if setting != 'p':
         labels.add('centred')
     if cell.get('rot'):
         labels.add('rigid_rot')
     mode = case.get('hex', '3')
+    form = case.get('form')
+    caller = bool(case.get('caller'))
     known = []
     ncall = 0
+    ledger = g14.Ledger(Violation)
+    box_snap = np.array(box.vects)
+    handed = []
     for hkl3 in case['planes']:
         if mode in ('4', '4to3'):
             hkl = [hkl3[0], hkl3[1], -(hkl3[0] + hkl3[1]), hkl3[2]]
@@ -336,18 +411,62 @@ def oracle_basis(case):
             labels.add('nt')
         for cut in case['cuts']:
             ncall += 1
-            what = 'free_surface_basis(%r, %s(%s) cell %s%s, cutboxvector=%r%s)' % (
-                hkl, cell['family'], setting, cell_txt(cell), ' rotated' if cell.get('rot') else '', cut,
+            what = 'free_surface_basis(%r%s, %s(%s) cell %s%s, cutboxvector=%r%s)' % (
+                hkl, ' as %s' % form if form else '', cell['family'], setting, cell_txt(cell), ' rotated' if cell.get('rot') else '', cut,
                 '' if ret_hex is None else ', return_hexagonal=%r' % ret_hex)
-            status, rows = basis_one(am, hkl, box, Vp, setting, cut, ret_hex, what, cell=cell)
+            harg = ledger.add_input(hkl_arg(form, hkl), 'hkl of ' + what) if form else hkl
+            if form:
+                labels |= form_labels('hkl', form if g14.int_form_fits(form, hkl) else 'i8')
+            got = []
+            status, rows = basis_one(am, hkl, box, Vp, setting, cut, ret_hex, what, cell=cell, got=got, arg=harg)
             labels.add(status)
             labels.add('cut_' + cut)
             if status == 'parallel':
                 known.append('%s returned two parallel in-plane rows %r (determinant 0)' % (what, rows))
+            # class A: what the call returned is kept and compared bit for bit after the later calls of the case
+            for out in got:
+                ledger.add_array(out[0], 'uvws of ' + what)
+                ledger.add_array(out[1], 'plane normal of ' + what)
+            # class B: the arguments are bit-identical after the call
+            ledger.verify_inputs(' by ' + what)
+            require(np.array_equal(np.asarray(box.vects), box_snap), lambda: '%s changed the box it was given' % what)
+            if caller and got and status == 'ok':
+                handed.append((hkl, cut, ret_hex, harg, got[-1], what))
     if mode != '3':
         labels.add('hex_' + mode)
     if known:
         raise Violation('%d of %d calls: %s' % (len(known), ncall, known[0]), key=K_PARALLEL)
+    n = ledger.verify(' after the later calls of the case')
+    if n >= 4:
+        labels.add('ledger')
+    if handed:
+        # class A again, for a case with a single call too: the same question is asked once more with equal (fresh) arguments - the
+        # answer is the first one bit for bit, the first answer did not move and the two do not share memory
+        snaps = [(np.array(o[0], copy=True), np.array(o[1], copy=True)) for _, _, _, _, o, _ in handed]
+
+        def ask_again(stage):
+            for (hkl, cut, ret_hex, harg, out, what), (u0, n0) in zip(handed, snaps):
+                again = call_basis(am, hkl_arg(form, hkl), box, cut, setting, ret_hex)
+                ledger.add_array(again[0], 'uvws of %s asked again%s' % (what, stage))
+                ledger.add_array(again[1], 'plane normal of %s asked again%s' % (what, stage))
+                require(np.array_equal(np.asarray(again[0]), u0) and np.array_equal(np.asarray(again[1]), n0),
+                        lambda: '%s asked again%s: %r / %r, the first answer was %r / %r'
+                        % (what, stage, np.asarray(again[0]).tolist(), np.asarray(again[1]).tolist(), u0.tolist(), n0.tolist()))
+        ask_again('')
+        ledger.verify(' after the same question was asked again')
+        labels.add('ledger')
+        # class B: the caller overwrites in place what it handed in (a writable index array) and everything that was handed out,
+        # then asks once more: the answer is still the first one
+        for arr, _, _ in ledger.arrays:
+            ledger.drop(arr)
+            arr[...] = 7 if arr.dtype.kind != 'f' else -3.25
+        for hkl, cut, ret_hex, harg, out, what in handed:
+            if isinstance(harg, np.ndarray) and harg.flags.writeable:
+                harg[...] = 1
+        if len(handed) == 1 or case.get('caller') == 'all':
+            ask_again(' after the caller overwrote the index array it had passed and the arrays of the earlier answers')
+            ledger.verify(' at the end')
+        labels.add('caller_mut')
     return labels
 
 
@@ -435,6 +554,28 @@ def enum_basis(tier):
         for mode in ('3to4', '4to3'):
             for bi, blk in enumerate(_blocks(P3, 3)):
                 cases.append({'cell': _unit(hexc, bi, 4, 2), 'planes': blk, 'cuts': 'cab'[bi % 3], 'hex': mode})
+    # generator classes carried over from the seeded rounds.  G / E: exact images (signed axis permutation, renamed vectors) and
+    # near-symmetric versions of the generic cells, a third (thorough: all) of the planes each
+    P3 = all_planes(3)
+    extra = [({'family': 'orthorhombic', 'abc': GENERIC['orthorhombic'], 'setting': 'p', 'rot': None, 'perm': [[1, 2, 0], [1, -1, -1]]}, 0),
+             ({'family': 'tetragonal', 'abc': GENERIC['tetragonal'], 'setting': 'p', 'rot': None, 'relabel': 1}, 1),
+             ({'family': 'cubic', 'abc': GENERIC['cubic'], 'setting': 'p', 'rot': None,
+               'pert': {'e': -6, 'v': [1.0, -0.5, 0.3, 0.5, -1.0, 0.3]}}, 2),
+             ({'family': 'monoclinic', 'abc': GENERIC['monoclinic'], 'setting': 'p', 'rot': None, 'perm': [[0, 2, 1], [-1, 1, 1]],
+               'relabel': 2}, 3),
+             ({'family': 'hexagonal', 'abc': GENERIC['hexagonal'], 'setting': 'p', 'rot': None,
+               'pert': {'e': -12, 'v': [1.0, -1.0, 0.5, 1.0, -1.0, 0.5]}}, 4)]
+    for cell, j in extra:
+        planes = P3 if tier != 'quick' else P3[j::12]
+        for bi, blk in enumerate(_blocks(planes, 3)):
+            cases.append({'cell': _unit(cell, bi, 4, j), 'planes': blk, 'cuts': 'cab'[bi % 3] if tier == 'quick' else 'abc', 'hex': '3'})
+    # C / B: how the caller hands the indices in (every form in turn over one case in three) and, for one case in twenty, the caller
+    # overwriting what it handed in and what was handed out before asking again
+    for i, c in enumerate(cases):
+        if i % 3 == 1:
+            c['form'] = g14.INT_FORMS[(i // 3) % len(g14.INT_FORMS)]
+        if i % 20 == 4:
+            c['caller'] = True
     # fixed permutation of the list: every shard (cases[shard::n]) and every prefix of a shard then holds all cells and
     # settings in proportion, so a run cut short by the soft wall budget is still representative and shards cost the same
     N = len(cases)
@@ -457,6 +598,8 @@ _idx4 = st.integers(-4, 4)
 _idx2 = st.integers(-2, 2)
 _cut = st.sampled_from(['a', 'b', 'c'])
 _int10 = st.integers(0, 9)
+_int20 = st.integers(0, 19)
+_bool = st.booleans()
 # length unit of a case: 10**lscale; angstrom-scale numbers (0) in half of the cases, SI (1e-10) favoured among the others
 _lscale = st.sampled_from([0] * 18 + [-10] * 6 + [-12, -9, -8, -6, -4, -3, -2, -1, 1, 2, 3, 6])
 SETTING_FAMILIES = {
@@ -479,8 +622,24 @@ def cells(draw, centred_share=4):
     opts = FAMILY_SETTINGS[fam]
     if len(opts) > 1 and draw(_int10) < centred_share:
         setting = draw(st.sampled_from(opts[1:]))
-    rot = draw(_rot) if draw(_int10) < 3 else None
-    return {'family': fam, 'abc': fp['abc'], 'setting': setting, 'rot': rot, 'lscale': draw(_lscale)}
+    rot = draw(_rot) if draw(_int10) < 4 else None           # 4 in 10: the classes below take some of them away
+    cell = {'family': fam, 'abc': fp['abc'], 'setting': setting, 'rot': rot, 'lscale': draw(_lscale)}
+    k = draw(_int20)
+    if k < 3:
+        # class G: an exact signed permutation of the Cartesian axes instead of a rotation by a generic angle
+        cell['rot'] = None
+        cell['perm'] = draw(g14.signed_perms)
+    elif k < 5 and setting == 'p':
+        # class G: the lattice vectors renamed cyclically (half of them with a permutation of the axes on top)
+        cell['relabel'] = 1 + draw(_int10) % 2
+        if draw(_bool):
+            cell['rot'] = None
+            cell['perm'] = draw(g14.signed_perms)
+    elif k < 7 and setting == 'p':
+        # class E: the cell of the family 1e-12 ... 1e-3 off its special values
+        cell['rot'] = None
+        cell['pert'] = {'e': draw(g14.pert_exp), 'v': draw(g14.pert_pat)}
+    return cell
 
 
 def _plane(draw, src):
@@ -491,14 +650,28 @@ def _plane(draw, src):
     return [1, 1, 0]
 
 
+_hexmode = st.sampled_from(['3', '4', '4', '3to4', '4to3'])
+
+
+def is_std_hex(cell):
+    """Miller-Bravais indices need the standard hexagonal setting (a = b, gamma = 120 exactly, c the unique axis)"""
+    return cell['family'] == 'hexagonal' and cell['setting'] == 'p' and not cell.get('relabel') and not cell.get('pert')
+
+
 @st.composite
 def basis_random_cases(draw):
     cell = draw(cells())
     hkl = _plane(draw, _idx4 if draw(_int10) < 4 else _idx3)
     mode = '3'
-    if cell['family'] == 'hexagonal' and cell['setting'] == 'p':
-        mode = draw(st.sampled_from(['3', '4', '4', '3to4', '4to3']))
-    return {'cell': cell, 'planes': [hkl], 'cuts': draw(_cut), 'hex': mode}
+    if is_std_hex(cell):
+        mode = draw(_hexmode)
+    case = {'cell': cell, 'planes': [hkl], 'cuts': draw(_cut), 'hex': mode}
+    k = draw(_int10)
+    if k < 4:
+        case['form'] = draw(g14.narrow_int_forms if k < 2 else g14.int_forms)
+    if draw(_int10) < 2:
+        case['caller'] = True
+    return case
 
 
 def oracle_basis_random(case):
@@ -527,27 +700,64 @@ def _torus_sep(a, b):
 def ucells(draw, centred_share=4):
     cell = draw(cells(centred_share=centred_share))
     n = draw(_natoms)
+    # class C: how the unit cell stores its atoms (float32 / float16 / big-endian positions, Fortran-ordered / read-only / strided
+    # arrays handed to Atoms, narrow / unsigned / big-endian types).  Positions rounded to a narrower float ARE the crystal; special
+    # coordinates are then replaced by generic ones (layers that coincide only before the rounding would be an ambiguity of the
+    # caller's data, not a question to the code)
+    store = None
+    if draw(_int10) < 2:
+        store = {'pos': draw(g14.store_pos_forms), 'atype': draw(g14.store_atype_forms)}
+        if store['pos'] == 'f2' and cell['lscale']:
+            store['pos'] = 'f4'                   # float16 only holds angstrom-scale numbers
+    narrow = store is not None and store['pos'] in ('f4', 'f2', 'f4F')
     atoms = []
     for _ in range(n):
         a = []
         for _ in range(3):
             k = draw(_coordsel)
-            a.append(SPECIAL[k] if k < len(SPECIAL) else draw(_generic) / 1000.0 + 0.00037)
+            a.append(SPECIAL[k] if k < len(SPECIAL) and not narrow else draw(_generic) / 1000.0 + 0.00037)
         if all(_torus_sep(a, b) >= 0.04 for b in atoms):
             atoms.append(a)
     if not atoms:
-        atoms = [[0.0, 0.0, 0.0]]
+        atoms = [[0.0, 0.0, 0.0]] if not narrow else [[0.12337, 0.45637, 0.78937]]
     types = [1] + [1 + (draw(_int10) % 2) for _ in atoms[1:]]
-    return {'cell': cell, 'atoms': atoms, 'types': types}
+    u = {'cell': cell, 'atoms': atoms, 'types': types}
+    if store is not None:
+        u['store'] = store
+    return u
+
+
+def ucell_pos(u):
+    """the Cartesian positions of the unit cell's atoms: the float64 numbers the stored array holds"""
+    Vp = cell_vprim(u['cell'])
+    pos = np.array(u['atoms'], dtype=float).reshape(-1, 3) @ Vp
+    st_ = u.get('store')
+    if st_:
+        return g14.store_pos(st_['pos'], pos)
+    return pos.copy(), pos
 
 
 def build_ucell(am, u):
     Vp = cell_vprim(u['cell'])
-    s = np.array(u['atoms'], dtype=float).reshape(-1, 3)
-    pos = s @ Vp
-    system = am.System(atoms=am.Atoms(atype=np.array(u['types'], dtype=int), pos=pos.copy()),
+    handed, pos = ucell_pos(u)
+    st_ = u.get('store') or {}
+    system = am.System(atoms=am.Atoms(atype=g14.store_atype(st_.get('atype'), u['types']), pos=handed),
                        box=am.Box(vects=Vp.copy()))
     return system, Vp, pos
+
+
+def store_labels(u):
+    st_ = u.get('store')
+    if not st_:
+        return set()
+    out = {'store'}
+    if st_['pos'] in ('f4', 'f2', 'f4F'):
+        out.add('store_narrow_float')
+    else:
+        out.add('store_layout')
+    if st_.get('atype'):
+        out.add('store_atype')
+    return out
 
 
 AXIS_PLANES = {
@@ -564,9 +774,30 @@ class _D:
         self.draw = draw
 
 
+_axis_index = st.sampled_from([1, 1, -1, 2])
+
+
+def rows_labels(rows):
+    """class G: the chosen vectors are the cell vectors themselves / a signed relabelling of them"""
+    if rows == [[1, 0, 0], [0, 1, 0], [0, 0, 1]]:
+        return {'rows_identity', 'rows_signed_perm'}
+    if all(sorted(abs(x) for x in r) == [0, 0, 1] for r in rows):
+        return {'rows_signed_perm'}
+    return set()
+
+
 @st.composite
 def plane_cut(draw, cell):
     fam, setting = cell['family'], cell['setting']
+    if draw(_int20) < 2:
+        # class G: the plane of the two cell vectors that are not the cut vector - in an orthogonal (or hexagonal, cut c) cell the
+        # answer is the cell itself or a signed relabelling of it: nothing to rotate
+        cut = draw(_cut)
+        hkl = [0, 0, 0]
+        hkl[CUTIDX[cut]] = draw(_axis_index)
+        if is_std_hex(cell) and cut == 'c' and draw(_bool):
+            hkl = [0, 0, 0, hkl[2]]
+        return hkl, cut
     cut = 'c' if draw(_int10) < 5 else draw(st.sampled_from(['a', 'b']))
     oblique = fam in ('monoclinic', 'triclinic', 'rhombohedral')
     if cut != 'c' and (fam in ('triclinic', 'rhombohedral') or setting in ('t1', 't2')) and draw(_int10) < 8:
@@ -575,7 +806,7 @@ def plane_cut(draw, cell):
         hkl = AXIS_PLANES[fam](_D(draw))
     else:
         hkl = _plane(draw, _idx2 if (oblique or draw(_int10) < 5) else _idx3)
-    if fam == 'hexagonal' and setting == 'p' and draw(_int10) < 5:
+    if is_std_hex(cell) and draw(_int10) < 8:
         hkl = [hkl[0], hkl[1], -(hkl[0] + hkl[1]), hkl[2]]
     return hkl, cut
 
@@ -612,51 +843,131 @@ def _draw_step(draw, ci):
             'shiftmode': draw(_hmode)}
 
 
-def shift_arg(obj, mode, idx, cur):
+class Hand:
+    """How the caller hands its arguments in (class C: the forms of the case) and what it keeps of them (class B: with `track`
+    every argument object is entered in the ledger, to be compared bit for bit after the call and overwritten at the end)."""
+
+    def __init__(self, forms=None, ledger=None, track=False):
+        self.f = forms or {}
+        self.ledger = ledger
+        self.track = bool(track) and ledger is not None
+        self.vec_abs = None            # the absolute shift vector last requested as a vector (float64 of what was passed)
+        self.kept = []
+
+    def keep(self, obj, where):
+        if self.track and isinstance(obj, (np.ndarray, list, tuple)):
+            self.ledger.add_input(obj, where)
+            self.kept.append(obj)
+        return obj
+
+    def hkl(self, hkl):
+        return self.keep(hkl_arg(self.f.get('hkl'), hkl), 'hkl')
+
+    def vec(self, v, where):
+        return self.keep(g14.float_arg(self.f.get('shift'), v), where)
+
+    def mults(self, sm):
+        return self.keep(g14.mults_arg(self.f.get('mults'), sm), 'sizemults')
+
+    def num(self, x):
+        return g14.scalar_arg(self.f.get('num'), x)
+
+    def idx(self, k):
+        return g14.index_arg(self.f.get('idx'), k)
+
+    def labels(self):
+        out = set()
+        if self.f:
+            out.add('forms')
+        out |= form_labels('hkl', self.f.get('hkl'))
+        if self.f.get('shift') not in (None, 'list'):
+            out.add('shift_form')
+        if self.f.get('mults') not in (None, 'list'):
+            out.add('mults_form')
+        if self.f.get('num') not in (None, 'py') or self.f.get('idx') not in (None, 'py'):
+            out.add('npscalar_form')
+        return out
+
+
+PLAIN = Hand()
+
+
+def shift_arg(obj, mode, idx, cur, H=PLAIN):
     """surface() keywords selecting termination #idx in the given way (set_shift* modes act on the object at once);
-    returns (kw, index of the termination in force afterwards).  'none': nothing is passed, #cur stays in force"""
+    returns (kw, index of the termination in force afterwards).  'none': nothing is passed, #cur stays in force.
+    A vector handed in as a float32 array IS the numbers it holds: H.vec_abs is the absolute shift that was requested"""
     shifts = np.asarray(obj.shifts, dtype=float)
     if mode == 'index':
-        return {'shiftindex': idx}, idx
-    if mode == 'vector':
-        return {'shift': [float(x) for x in shifts[idx]]}, idx
+        H.vec_abs = None
+        return {'shiftindex': H.idx(idx)}, idx
+    if mode in ('vector', 'set_shift_vector'):
+        v = H.vec([float(x) for x in shifts[idx]], 'shift')
+        H.vec_abs = g14.request(v)
+        if mode == 'vector':
+            return {'shift': v}, idx
+        obj.set_shift(shift=v)
+        return {}, idx
     if mode == 'scaled':
         rb = np.asarray(obj.rcell.box.vects, dtype=float)
-        return {'shift': [float(x) for x in np.linalg.solve(rb.T, shifts[idx])], 'shiftscale': True}, idx
+        v = H.vec([float(x) for x in np.linalg.solve(rb.T, shifts[idx])], 'shift (box-relative)')
+        H.vec_abs = g14.request(v) @ rb
+        return {'shift': v, 'shiftscale': True}, idx
     if mode == 'set_shift':
-        obj.set_shift(shiftindex=idx)
-        return {}, idx
-    if mode == 'set_shift_vector':
-        obj.set_shift(shift=[float(x) for x in shifts[idx]])
+        H.vec_abs = None
+        obj.set_shift(shiftindex=H.idx(idx))
         return {}, idx
     if mode == 'set_shift0':
+        H.vec_abs = None
         obj.set_shift()                       # documented: neither shift nor shiftindex -> shiftindex 0
         return {}, 0
     return {}, cur
 
 
-def size_args(step, S=1.0):
+def size_args(step, S=1.0, H=PLAIN):
     """minwidth / vacuumwidth are lengths in working units: given in the unit S of the case"""
     kw = {}
     if step['sizemults'] is not None:
-        kw['sizemults'] = [mult_arg(m) for m in step['sizemults']]
+        kw['sizemults'] = H.mults(step['sizemults'])
     if step['minwidth'] is not None:
-        kw['minwidth'] = step['minwidth'] * S
+        kw['minwidth'] = H.num(step['minwidth'] * S)
     if step['even']:
         kw['even'] = True
     if step['vacuum'] is not None:
-        kw['vacuumwidth'] = float(step['vacuum']) * S
+        kw['vacuumwidth'] = H.num(float(step['vacuum']) * S)
     return kw
 
 
-def run_step(obj, step, cur, force_mode=None, force_idx=None, S=1.0, **extra):
+def surface_call(obj, kw, H=PLAIN, what='surface()'):
+    """obj.surface(**kw) with the arguments the caller handed in compared bit for bit afterwards (class B, when H tracks them).
+    The size multipliers are documented as 'list or tuple'; surface() writes the multiplier along the cut vector into the object it
+    was given whenever minwidth / even change it: a tuple is refused with TypeError, a list / array of the caller is edited (keyed)."""
+    sm = kw.get('sizemults')
+    try:
+        system = obj.surface(**kw)
+    except TypeError as e:
+        if isinstance(sm, tuple) and 'item assignment' in str(e):
+            raise Violation('%s with sizemults=%r (a tuple, as documented: "list or tuple") and minwidth=%r, even=%r raised TypeError(%s): '
+                            'the multiplier along the cut vector is written into the caller\'s object'
+                            % (what, sm, kw.get('minwidth'), kw.get('even', False), e), key=K_SIZEMULTS) from None
+        raise
+    if H.track and sm is not None:
+        d = H.ledger.changed_input(sm)
+        if d:
+            raise Violation('%s edited the size multipliers the caller handed in (minwidth=%r, even=%r): %s'
+                            % (what, kw.get('minwidth'), kw.get('even', False), d), key=K_SIZEMULTS)
+    if H.track:
+        H.ledger.verify_inputs(' by ' + what)
+    return system
+
+
+def run_step(obj, step, cur, force_mode=None, force_idx=None, S=1.0, H=PLAIN, **extra):
     """one earlier surface() call of a history (its result is not judged); returns (system, termination index in force)"""
     nsh = len(obj.shifts)
     idx = step['shiftsel'] % nsh if force_idx is None else force_idx
-    kw, cur = shift_arg(obj, force_mode or step['shiftmode'], idx, cur)
-    kw.update(size_args(step, S))
+    kw, cur = shift_arg(obj, force_mode or step['shiftmode'], idx, cur, H)
+    kw.update(size_args(step, S, H))
     kw.update(extra)
-    return obj.surface(**kw), cur
+    return surface_call(obj, kw, H, 'an earlier surface(%s)' % ', '.join('%s=%r' % kv for kv in sorted(kw.items()))), cur
 
 
 @st.composite
@@ -675,7 +986,52 @@ def surface_cases(draw):
             'shiftsel': draw(st.integers(0, 1000)),
             'shiftmode': draw(_surf_first),
             'history': {'prior': prior}}
+    k = draw(_int20)
+    narrow = u.get('store', {}).get('pos') in ('f4', 'f2', 'f4F')
+    if k < 3 and u['cell']['setting'] == 'p' and not narrow:
+        # class E: a second atomic layer 1e-6 ... 1e-4 (fractional) above an existing one
+        add_near_layer(u, plane3(hkl), draw(_nl_delta), draw(_int10), draw(_int10))
+    elif k < 8:
+        # class C: how the caller hands the arguments in
+        case['forms'] = {'hkl': draw(g14.int_forms), 'shift': draw(g14.float_forms), 'mults': draw(g14.mult_forms),
+                         'num': draw(g14.scalar_forms), 'idx': draw(g14.index_forms)}
+    k = draw(_int20)
+    if k < 3:
+        # class E: minwidth a hair below / above / exactly at a whole number of oriented cells
+        case['minwidth_near'] = {'n': draw(st.integers(1, 5)), 'e': draw(_mw_exp), 'sign': draw(_pm)}
+        case['minwidth'] = 1.0
+    # class B: the caller keeps what it handed in, compares it after every call and overwrites it at the end;  A: another object
+    if draw(_int10) < 2:
+        case['caller'] = True
+    if draw(_int10) < 2:
+        case['other'] = {'sel': draw(_sel), 'mult': draw(_mult_cut_h)}
     return case
+
+
+_pm = st.sampled_from([1, -1])
+_nl_delta = st.sampled_from([1e-6, 2e-6, 5e-6, 1e-5, 3e-5, 1e-4])
+_mw_exp = st.sampled_from([None, None, -13, -12, -7, -6, -5, -4, -3])
+
+
+def add_near_layer(u, h3, delta, sel, sel2):
+    """adds to the unit cell `u` (in place, before it becomes part of the case) an atom whose height along the normal of the plane
+    h3 differs from that of an existing atom by delta x (a cell vector . unit normal): displaced in the plane by an exact in-plane
+    half vector, then by delta along a cell vector that leaves the plane"""
+    h, k, l = [int(x) for x in h3]
+    src = u['atoms'][sel % len(u['atoms'])]
+    if h or k:
+        n = 2.0 * max(abs(h), abs(k))
+        w = [k / n, -h / n, 0.0]
+    else:
+        w = [0.5, 0.0, 0.0]
+    out = [i for i, x in enumerate((h, k, l)) if x]
+    ax = out[sel2 % len(out)]
+    new = [src[i] + w[i] + (delta if i == ax else 0.0) for i in range(3)]
+    new = [x - math.floor(x) for x in new]
+    if all(_torus_sep(new, b) >= 0.04 for b in u['atoms']):
+        u['atoms'].append(new)
+        u['types'].append(1 + sel2 % 2)
+        u['near_layer'] = {'delta': delta, 'axis': ax}
 
 
 # ----------------------------------------------------------------------------- surface oracle helpers
@@ -733,7 +1089,7 @@ def gap_at(L, p, c0):
 class Geometry:
     """everything my side knows about the oriented cell, from the integer rows and the unit cell numbers"""
 
-    def __init__(self, u, hkl, cut, rows):
+    def __init__(self, u, hkl, cut, rows, tol=1e-7):
         cell = u['cell']
         self.S = cell_S(cell)                       # the length unit of the case (1 = angstrom-scale numbers)
         self.setting = cell['setting']
@@ -754,10 +1110,17 @@ class Geometry:
         self.rw = self.z[self.ci] / (self.den * self.gn)          # width of the oriented cell along the normal
         self.det = sr.idet(rows)
         self.L = float(np.abs(self.W).max())
-        pos = np.array(u['atoms'], dtype=float).reshape(-1, 3) @ self.Vp
+        pos = ucell_pos(u)[1]
         self.upos = pos
         self.heights = pos @ (self.g / self.gn)
-        self.layers, self.ambiguous = sr.distinct_layers(self.heights, self.period, 1e-9 * self.S, 1e-4 * self.S)
+        # atomic layers closer than `apart` without coinciding make the layer structure ambiguous.  In general 1e-4 S; a unit cell
+        # built with two layers 1e-6 ... 1e-4 apart on purpose (class E, `near_layer`) is judged against the documented `tol`
+        # ('used to round off near-zero values', a length: coordinates along the cut are rounded to -log10(tol) decimals, so
+        # layers more than tol apart can never be merged): ambiguous only below 3 tol
+        self.apart = 1e-4 * self.S if not u.get('near_layer') else 3.0 * tol * self.S
+        self.layers, self.ambiguous = sr.distinct_layers(self.heights, self.period, 1e-9 * self.S, self.apart)
+        self.mingap = float(self.period) if len(self.layers) < 2 else float(min(
+            np.diff(np.concatenate([self.layers, [self.layers[0] + self.period]])).min(), self.period))
 
     def perp_cos(self):
         c = self.W[self.ci]
@@ -784,7 +1147,7 @@ def tol_arg(cls, cell):
     return {'tol': DEFAULT_TOL[cls.__name__] * 10.0 ** k} if k else {}
 
 
-def construct(am, cls, case, u, ucell, labels, **extra):
+def construct(am, cls, case, u, ucell, labels, H=PLAIN, **extra):
     """FreeSurface / StackingFault constructor with the documented refusals sorted out.
     returns the object, or None after adding a refusal label"""
     hkl, cut = case['hkl'], case['cut']
@@ -796,7 +1159,7 @@ def construct(am, cls, case, u, ucell, labels, **extra):
     if kw.get('tol') is not None:
         what = what[:-1] + ', tol=%r)' % kw['tol']
     try:
-        return cls(hkl, ucell, **kw), what
+        return cls(H.hkl(hkl), ucell, **kw), what
     except AssertionError as e:
         if _is_refusal(e):
             d = scale_diagnosis(am, hkl, u['cell'], cut)
@@ -910,6 +1273,38 @@ def with_scale_diagnosis(oracle):
     return wrapped
 
 
+def caller_overwrites(H, ledger):
+    """class B: the caller overwrites in place every (writable) argument object it kept; returns how many it could overwrite"""
+    n = 0
+    for obj in H.kept:
+        if isinstance(obj, np.ndarray):
+            if obj.flags.writeable:
+                if obj.dtype.kind == 'b':
+                    obj[...] = ~obj
+                elif obj.dtype.kind == 'f':
+                    obj[...] = obj * -3.0 + 1.25
+                else:
+                    obj[...] = 3
+                n += 1
+        elif isinstance(obj, list):
+            obj[:] = [9] * len(obj)
+            n += 1
+    # what was overwritten is no longer an input to be compared
+    ledger.inputs = [t for t in ledger.inputs if not any(t[0] is o for o in H.kept)]
+    return n
+
+
+def scribble_ucell(ucell):
+    """class B: the caller re-uses the unit cell it handed in: positions overwritten in place (when the array can be written),
+    the cell re-defined through the setter"""
+    try:
+        ucell.atoms.pos[...] = np.asarray(ucell.atoms.pos)[::-1] * 0.5 + 0.321
+    except ValueError:
+        pass                                   # a read-only array of the caller
+    V = np.asarray(ucell.box.vects, dtype=float)
+    ucell.box_set(vects=V[[1, 2, 0]] * 1.5, origin=[0.1, -0.2, 0.3])
+
+
 @with_scale_diagnosis
 def oracle_surface(case):
     import atomman as am
@@ -920,8 +1315,15 @@ def oracle_surface(case):
     setting = cell['setting']
     h3 = plane3(hkl)
     S = cell_S(cell)
+    ledger = g14.Ledger(Violation)
+    caller = bool(case.get('caller'))
+    H = Hand(case.get('forms'), ledger, caller)
+    near_mw = case.get('minwidth_near')
+    if near_mw and H.f.get('num') == 'np4':
+        H.f = dict(H.f, num='np8')             # a hair from a whole number of cells is not a float32 number
     mw = None if case['minwidth'] is None else case['minwidth'] * S          # minwidth / vacuumwidth: lengths in working units
-    labels = {cell['family'], 'setting_' + setting, 'cut_' + cut, 'natoms%d' % len(u['atoms'])} | scale_labels(cell)
+    labels = ({cell['family'], 'setting_' + setting, 'cut_' + cut, 'natoms%d' % len(u['atoms'])} | scale_labels(cell)
+              | class_labels(cell) | store_labels(u) | H.labels())
     if setting != 'p':
         labels.add('centred')
     if len(hkl) == 4:
@@ -931,15 +1333,41 @@ def oracle_surface(case):
     ucell, Vp, upos = build_ucell(am, u)
     snap_pos, snap_v = np.array(ucell.atoms.pos), np.array(ucell.box.vects)
     extra = {}
-    if case['shiftmode'] == 'init':
-        extra['shiftindex'] = 0
-    fs, what = construct(am, FreeSurface, case, u, ucell, labels, **extra)
+    cur0 = 0
+    init = case.get('init')
+    if init:
+        # class H: the termination is chosen in the constructor - by index, by vector, by box-relative vector.  The offered shifts
+        # are read from a first object (same arguments, nothing chosen)
+        probe, _ = construct(am, FreeSurface, case, u, ucell, labels)
+        if probe is None:
+            return labels
+        cur0 = init['sel'] % len(probe.shifts)
+        pv = np.asarray(probe.shifts, dtype=float)[cur0]
+        if init['mode'] == 'index':
+            extra['shiftindex'] = H.idx(cur0)
+        elif init['mode'] == 'vector':
+            extra['shift'] = H.vec([float(x) for x in pv], 'shift (constructor)')
+            H.vec_abs = g14.request(extra['shift'])
+        else:
+            rb = np.asarray(probe.rcell.box.vects, dtype=float)
+            extra['shift'] = H.vec([float(x) for x in np.linalg.solve(rb.T, pv)], 'shift (constructor, box-relative)')
+            extra['shiftscale'] = True
+            H.vec_abs = g14.request(extra['shift']) @ rb
+        labels.add('init_' + init['mode'])
+    elif case['shiftmode'] == 'init':
+        extra['shiftindex'] = H.idx(0)
+    fs, what = construct(am, FreeSurface, case, u, ucell, labels, H=H, **extra)
     if fs is None:
         return labels
+    if init:
+        what = what[:-1] + ', %s)' % ', '.join('%s=%r' % kv for kv in sorted(extra.items()))
+    if H.f.get('hkl'):
+        what += ' [hkl handed in as %s]' % H.f['hkl']
     rows = rows_from_uvws(fs.uvws, setting, what)
-    geo = Geometry(u, hkl, cut, rows)
+    geo = Geometry(u, hkl, cut, rows, tol=DEFAULT_TOL['FreeSurface'])
     judge_rows(geo, what)
     ci = geo.ci
+    labels |= rows_labels(rows)
     require(int(fs.cutindex) == ci, lambda: '%s: cutindex %r' % (what, fs.cutindex))
     Tf = np.asarray(fs.transform, dtype=float)
     require(Tf.shape == (3, 3) and np.abs(Tf - geo.T).max() <= 1e-8,
@@ -952,8 +1380,12 @@ def oracle_surface(case):
     check_system_rcell = fs.rcell
     require(check_system_rcell.natoms == geo.det * len(upos), lambda: '%s: rcell has %d atoms, expected det x natoms = %d'
             % (what, check_system_rcell.natoms, geo.det * len(upos)))
+    # class A: what the object hands out is kept, with a snapshot, until the end of the case
+    ledger.add_system(fs.rcell, 'the rcell attribute of ' + what)
+    for nm in ('shifts', 'uvws', 'transform'):
+        ledger.add_array(getattr(fs, nm), 'the %s attribute of %s' % (nm, what))
     # ---- offered shifts (arithmetic on all of them)
-    shifts = np.asarray(fs.shifts, dtype=float)
+    shifts = np.array(fs.shifts, dtype=float)
     require(shifts.ndim == 2 and shifts.shape[1] == 3 and len(shifts) >= 1, lambda: '%s: shifts has shape %r' % (what, shifts.shape))
     off = np.delete(shifts, ci, axis=1)
     require(np.abs(off).max() == 0.0, lambda: '%s: a shift has components in the plane: %r' % (what, shifts.tolist()))
@@ -961,6 +1393,11 @@ def oracle_surface(case):
     require(np.all(sv >= -1e-9 * geo.L) and np.all(sv <= rw + 1e-9 * geo.L),
             lambda: '%s: shifts outside [0, rcellwidth = %.9g]: %r' % (what, rw, sv.tolist()))
     tol_l = 1e-6 * max(S, geo.L)
+    if u.get('near_layer'):
+        # two layers were put 1e-6 ... 1e-4 apart on purpose: lengths are resolved at a tenth of the narrowest gap
+        tol_l = min(tol_l, 0.1 * geo.mingap)
+        labels.add('near_layer')
+    narrow_store = 'store_narrow_float' in labels
     if not geo.ambiguous:
         k = geo.z[ci] // geo.gq
         nexp = k * len(geo.layers)
@@ -982,11 +1419,21 @@ def oracle_surface(case):
         labels.add('layers_checked')
         if len(geo.layers) > 1:
             labels.add('multilayer')
+        if u.get('near_layer') and geo.mingap < 1e-4 * S:
+            labels.add('near_layer_judged')
     else:
-        labels.add('layer_ambiguous')
+        labels.add('layer_ambiguous_store' if narrow_store else ('layer_ambiguous_near' if u.get('near_layer') else 'layer_ambiguous'))
     if len(sv) > 1:
         labels.add('multishift')
     # ---- built systems
+    if near_mw:
+        # class E: minwidth a hair (1e-13 ... 1e-3 of a cell) below / above / exactly at a whole number of oriented cells
+        mw = float(near_mw['n']) * geo.rw
+        if near_mw['e'] is not None:
+            mw = (near_mw['n'] + near_mw['sign'] * 10.0 ** int(near_mw['e'])) * geo.rw
+    if mw is not None:
+        mw_arg = H.num(mw)
+        mw = float(mw_arg)                      # the request is the number the argument holds
     sm = case['sizemults']
     spans = [mult_span(m) for m in sm] if sm is not None else [(0, 1)] * 3
     mcut = sm[ci] if sm is not None else 1
@@ -1008,15 +1455,16 @@ def oracle_surface(case):
         which = [a] + [i for i in which if i != a]
     if smode == 'prev' and not prior:
         smode = 'set_shift'
-    cur = 0                                   # constructor: shiftindex 0 (passed, or the documented default)
+    cur = cur0                                # constructor: shiftindex 0 (passed, or the documented default) unless the case chose
     for j, step in enumerate(prior):
         if smode == 'init':
-            _, cur = run_step(fs, step, cur, force_mode='none', S=S)          # the constructor's choice must survive
+            psys, cur = run_step(fs, step, cur, force_mode='none', S=S, H=H)          # the constructor's choice must survive
         elif smode == 'prev' and j == len(prior) - 1:
             pm = step['shiftmode'] if step['shiftmode'] in ('index', 'vector', 'scaled', 'set_shift') else 'index'
-            _, cur = run_step(fs, step, cur, force_mode=pm, force_idx=which[0], S=S)
+            psys, cur = run_step(fs, step, cur, force_mode=pm, force_idx=which[0], S=S, H=H)
         else:
-            _, cur = run_step(fs, step, cur, S=S)
+            psys, cur = run_step(fs, step, cur, S=S, H=H)
+        ledger.add_system(psys, 'earlier surface() call #%d' % j)
         if step['shiftmode'].startswith('set_shift') and smode != 'init':
             labels.add('history_set_shift')
     if prior:
@@ -1035,26 +1483,28 @@ def oracle_surface(case):
     if smode.startswith('set_shift'):
         labels.add('history_set_shift')
     first = True
+    last = None
     for si in which:
         kw = {}
         if sm is not None:
-            kw['sizemults'] = [mult_arg(m) for m in sm]
+            kw['sizemults'] = H.mults(sm)
         if mw is not None:
-            kw['minwidth'] = mw
+            kw['minwidth'] = mw_arg
         if case['even']:
             kw['even'] = True
-        ii = 0 if si is None else si
+        ii = cur0 if si is None else si
         mode = smode if first else 'index'
         pre = ''
         if si is None or mode == 'prev':
             assert cur == ii, (cur, ii)       # nothing passed: the termination in force (constructor / earlier call) stays
         else:
-            skw, cur = shift_arg(fs, mode, ii, cur)
+            skw, cur = shift_arg(fs, mode, ii, cur, H)
             kw.update(skw)
             if mode.startswith('set_shift'):
                 pre = '.%s(#%d)' % (mode, ii)
         w2 = '%s%s.surface(%s)' % (what, pre, ', '.join('%s=%r' % kv for kv in sorted(kw.items())))
-        system = fs.surface(**dict(kw, sizemults=list(kw['sizemults'])) if 'sizemults' in kw else kw)
+        system = surface_call(fs, kw, H, w2)
+        ledger.add_system(system, w2)
         Bs = np.asarray(system.box.vects, dtype=float)
         got = Bs[ci, ci] / geo.B0[ci, ci]
         mfinal = int(round(got))
@@ -1066,7 +1516,11 @@ def oracle_surface(case):
         nrep = geo.det * sp2[0][1] * sp2[1][1] * sp2[2][1]
         require(system.natoms == nrep * len(upos), lambda: '%s: %d atoms, expected %d' % (w2, system.natoms, nrep * len(upos)))
         sh_used = np.asarray(fs.shift, dtype=float)
-        require(np.abs(sh_used - shifts[ii]).max() <= 1e-9 * geo.L, lambda: '%s: shift attribute %r is not shifts[%d] = %r'
+        sh_req = shifts[ii] if H.vec_abs is None else H.vec_abs          # a vector handed in IS the numbers it holds (float32 forms)
+        require(sh_used.shape == (3,) and np.abs(sh_used - sh_req).max() <= 1e-9 * geo.L,
+                lambda: '%s: shift attribute %r is not the requested shift %r (shifts[%d] = %r)'
+                % (w2, sh_used.tolist(), np.asarray(sh_req).tolist(), ii, shifts[ii].tolist()))
+        require(np.abs(sh_used - shifts[ii]).max() <= 1e-6 * geo.L, lambda: '%s: shift attribute %r is not shifts[%d] = %r'
                 % (w2, sh_used.tolist(), ii, shifts[ii].tolist()))
         B, o, pos, n, d, w = check_system(geo, system, sh_used, sp2, None, w2, motif, nrep)
         if mw is not None:
@@ -1081,13 +1535,16 @@ def oracle_surface(case):
         area = float(np.linalg.norm(np.cross(B[geo.inpl[0]], B[geo.inpl[1]])))
         sa = float(fs.surfacearea)
         require(abs(sa - area) <= 1e-9 * area, lambda: '%s: surfacearea %.12g, in-plane cell area %.12g' % (w2, sa, area))
+        last = (system, ii, mfinal)
         if case['vacuum'] is not None and first:
-            vac = float(case['vacuum']) * S
-            kwv = dict(kw, vacuumwidth=vac)
+            vac_arg = H.num(float(case['vacuum']) * S)
+            vac = float(vac_arg)
+            kwv = dict(kw, vacuumwidth=vac_arg)
             if 'sizemults' in kwv:
-                kwv['sizemults'] = list(kw['sizemults'])
-            sysv = fs.surface(**kwv)
+                kwv['sizemults'] = H.mults(sm)
             w3 = w2[:-1] + ', vacuumwidth=%r)' % vac
+            sysv = surface_call(fs, kwv, H, w3)
+            ledger.add_system(sysv, w3)
             require(sysv.natoms == system.natoms, lambda: '%s: atom count changed' % w3)
             pv = np.asarray(sysv.atoms.pos, dtype=float)
             require(np.abs(pv - pos).max() <= 1e-10 * geo.L, lambda: '%s: atom positions moved by up to %.3g when vacuum was added'
@@ -1099,9 +1556,69 @@ def oracle_surface(case):
             require([bool(x) for x in sysv.pbc] == [bool(x) for x in system.pbc], lambda: '%s: pbc %r' % (w3, sysv.pbc))
             check_system(geo, sysv, sh_used, sp2, vac, w3, motif, nrep)
             labels.add('vacuum' if vac > 0 else 'vacuum0')
+        if first and case.get('other'):
+            # class A: another object on the same unit cell (same plane, other termination and size) is built and used in between
+            oth = case['other']
+            fs2 = FreeSurface(list(hkl), ucell, cutboxvector=cut, conventional_setting=setting, shiftindex=oth['sel'] % nsh,
+                              **tol_arg(FreeSurface, cell))
+            m2 = [1, 1, 1]
+            m2[ci] = int(oth['mult'])
+            ledger.add_system(fs2.surface(sizemults=m2), 'surface() of a second FreeSurface object on the same unit cell')
+            ledger.add_system(fs2.rcell, 'rcell of a second FreeSurface object on the same unit cell')
+            ledger.verify(' after another FreeSurface object was built on the same unit cell and used')
+            labels.add('ledger_other')
         first = False
     require(np.array_equal(np.asarray(ucell.atoms.pos), snap_pos) and np.array_equal(np.asarray(ucell.box.vects), snap_v),
             lambda: '%s: the unit cell was modified' % what)
+    # class A: everything handed out during the case is what it was when it was handed out (and judged)
+    nled = ledger.verify(' at the end of the case (after %d later surface() calls)' % len(which))
+    if len(ledger.systems) >= 3:
+        labels.add('ledger')
+    if caller:
+        # class B.  The arguments were compared after every call (surface_call).  Now the caller overwrites in place what it handed
+        # in, the systems handed out by earlier calls and the unit cell (in place and through the setter), then asks for the last
+        # system again: it must come out bit for bit as before.
+        last_sys, ii, mfinal = last
+        snap_last = g14.Ledger.snap_system(last_sys)
+        shift_before = np.array(fs.shift, dtype=float)
+        caller_overwrites(H, ledger)
+        if not np.array_equal(np.asarray(fs.shift, dtype=float), shift_before):
+            raise Violation('%s: after the caller overwrote the array it had passed as shift, the shift attribute of the object is %r '
+                            '(it was %r): set_shift keeps the caller\'s array instead of its values' % (what, np.asarray(fs.shift).tolist(), shift_before.tolist()),
+                            key=K_SHIFT)
+        for system, _, _ in ledger.systems:
+            if system is not last_sys and system is not fs.rcell and system is not fs.system:
+                ledger.drop(system)
+                system.atoms.pos[...] = np.asarray(system.atoms.pos) * 0.5 + 1.25
+                system.box_set(vects=np.asarray(system.box.vects) * 2.0)
+        scribble_ucell(ucell)
+        kw = {'shift': shift_before.copy(), 'sizemults': [1, 1, 1]}        # the shift in force and the final multipliers, as fresh objects
+        kw['sizemults'][ci] = -mfinal if int(mcut) < 0 else mfinal
+        for i_ in geo.inpl:
+            kw['sizemults'][i_] = mult_arg(sm[i_]) if sm is not None else 1
+        again = fs.surface(**kw)
+        now = g14.Ledger.snap_system(again)
+        for k_ in ('pos', 'atype', 'vects', 'origin', 'pbc'):
+            require(now[k_].shape == snap_last[k_].shape and np.array_equal(now[k_], snap_last[k_]),
+                    lambda: '%s: asked again for the last system (surface(%s)) after the caller overwrote its arguments, the earlier '
+                    'systems and the unit cell: %s differs (max %.3g)' % (what, ', '.join('%s=%r' % kv for kv in sorted(kw.items())), k_,
+                                                                        float(np.abs(now[k_].astype(float) - snap_last[k_].astype(float)).max())
+                                                                        if now[k_].shape == snap_last[k_].shape else -1.0))
+        ledger.verify(' after the caller overwrote what it had handed in')
+        labels.add('caller_mut')
+        if case['shiftsel'] % 2:
+            # the array handed out as the `shift` attribute is overwritten by the caller, then a termination is selected anew: the
+            # table of offered shifts must still be what it was
+            fs.surface(shiftindex=ii)
+            s_out = fs.shift
+            if isinstance(s_out, np.ndarray) and s_out.flags.writeable:
+                s_out[...] = 0.4321
+            fs.surface(shiftindex=ii)
+            tab = np.asarray(fs.shifts, dtype=float)
+            if not (tab.shape == shifts.shape and np.array_equal(tab, shifts)):
+                raise Violation('%s: after the caller overwrote the array handed out as the shift attribute, the table of offered shifts is\n%r\n'
+                                'it was\n%r: the shift attribute is a row of the table itself' % (what, tab.tolist(), shifts.tolist()), key=K_SHIFT)
+            labels.add('caller_mut_shift_out')
     labels.add('shiftmode_' + case['shiftmode'])
     if sm is not None:
         if any(isinstance(m, list) for m in sm):
@@ -1112,6 +1629,9 @@ def oracle_surface(case):
         labels.add('minwidth')
         if max(allowed) > abs(int(mcut)) + (1 if case['even'] else 0):
             labels.add('minwidth_decides')
+    if near_mw:
+        labels.add('minwidth_near')
+        labels.add('minwidth_exact' if near_mw['e'] is None else ('minwidth_near_above' if near_mw['sign'] > 0 else 'minwidth_near_below'))
     if case['even']:
         labels.add('even')
     if is_nt_plane(cell, h3):
@@ -1135,6 +1655,9 @@ _outs = st.sampled_from([0.5, -0.3, 1.25, 0.1])
 _custom_where = st.sampled_from(['init', 'fault', 'fault', 'setter', 'setter'])
 
 
+_fkind = st.sampled_from(['a12', 'a12', 'a12', 'a12', 'lattice', 'lattice', 'faultshift', 'faultshift', 'a12out', 'default'])
+
+
 @st.composite
 def fault_cases(draw):
     u = draw(ucells())
@@ -1143,7 +1666,7 @@ def fault_cases(draw):
     ci = CUTIDX[cut]
     mults = [draw(_mult_in) for _ in range(3)]
     mults[ci] = draw(_cutmult_f)
-    kind = draw(st.sampled_from(['a12', 'a12', 'a12', 'lattice', 'lattice', 'faultshift', 'a12out', 'default']))
+    kind = draw(_fkind)
     sh = {'kind': kind}
     if kind in ('a12', 'a12out'):
         which = draw(st.sampled_from(['both', 'both', 'a1', 'a2']))
@@ -1197,7 +1720,7 @@ def fault_cases(draw):
         mults[ci] = draw(st.sampled_from([1, 3, 5, 3]))
         if sh['kind'] in ('default', 'lattice'):
             sh = {'kind': 'a12', 'a1': draw(_frac15), 'a2': draw(_frac15)}
-    return {'ucell': u, 'hkl': hkl, 'cut': cut,
+    case = {'ucell': u, 'hkl': hkl, 'cut': cut,
             'sizemults': mults if keep_mults else None,
             'minwidth': minwidth,
             'even': even,
@@ -1211,6 +1734,47 @@ def fault_cases(draw):
             'itermap': [draw(st.integers(1, 3)), draw(st.integers(1, 3))] if draw(_int10) < 2 else None,
             'outside': draw(_int10) < 1,
             'history': history}
+    # ---- generator classes carried over from the seeded rounds
+    k = draw(_int20)
+    if k < 3 and fmode != 'default':
+        # class E: the fault plane 1e-6 ... 1e-3 of the slab width above / below an atomic layer (still between layers, outside
+        # the 1e-7 band in which rounding decides the side of an atom)
+        case['fpos']['near'] = {'e': draw(_near_e), 'side': draw(_int10) % 2}
+    k = draw(_int20)
+    if k < 2 and sh['kind'] in ('a12', 'a12out'):
+        # class E: fractional shifts a hair (1e-9 ... 1e-4) from 0 / a full lattice vector
+        sh['kind'] = 'a12near'
+        sh.pop('out', None)
+        sh['a1'] = draw(_small) + draw(_hair)
+        if sh.get('a2') is not None and draw(_bool):
+            sh['a2'] = draw(_small) + draw(_hair)
+    elif k < 5 and case['minimum_r'] is None and (sh['kind'] in ('a12out', 'default') or (sh['kind'] == 'a12' and sh.get('a2') is not None)):
+        # class F: the components of ONE shift request span 8+ decades (a1 ~ 1e-9, a2 ~ 0.4, outofplane ~ 1e-5 S; or a full
+        # faultshift vector): judged at rounding level, and again as the small component alone
+        if draw(_bool):
+            case['shift'] = {'kind': 'decades', 'via': 'a12out', 'a1': draw(_tiny9) , 'a2': draw(_frac15) or 0.4, 'out': draw(_tiny5)}
+        else:
+            v = [draw(_frac15) * 2.0 or 1.0, draw(_tiny9) * 3.0, draw(_tiny5)]
+            r = draw(_int10) % 3
+            case['shift'] = {'kind': 'decades', 'via': 'faultshift', 'vec': v[r:] + v[:r]}
+        if case['custom'] is not None and case['custom']['bad']:
+            case['custom'] = None
+    k = draw(_int20)
+    if k < 6:
+        # class C: how the caller hands the arguments in
+        case['forms'] = {'hkl': draw(g14.int_forms), 'shift': draw(g14.float_forms), 'mults': draw(g14.mult_forms),
+                         'num': draw(g14.scalar_forms), 'idx': draw(g14.index_forms), 'uvw': draw(g14.int_forms)}
+    if draw(_int10) < 3:
+        case['caller'] = True
+    if draw(_int10) < 2:
+        case['other'] = {'sel': draw(_sel), 'mult': draw(_mult_cut_h), 'a1': draw(_frac15)}
+    return case
+
+
+_near_e = st.sampled_from([-3, -4, -5, -6])
+_hair = st.sampled_from([1e-9, -1e-9, 1e-6, -1e-6, 1e-4, -1e-4, 3e-8])
+_tiny9 = st.sampled_from([1e-9, -2e-9, 3e-9, 5e-10, -1e-8])
+_tiny5 = st.sampled_from([1e-5, -3e-5, 2e-6, 1e-4])
 
 
 def cluster_layers(x, tol):
@@ -1275,6 +1839,21 @@ def bad_avect_accepted(am, StackingFault, case, u, cust_kw, msg):
     raise Violation(msg, key=key)
 
 
+def uvw_arg(H, c, where):
+    """a shift vector in crystal indices the way the caller hands it in (class C): an integer form when the indices are whole
+    numbers, else a float form (float32 only for dyadic values: the vector a float32 array holds must still be a lattice vector)"""
+    vals = [float(x) for x in c]
+    f = H.f.get('uvw')
+    if not f:
+        return H.keep(vals, where)
+    if all(v == round(v) for v in vals):
+        return H.keep(g14.int_arg(f, [int(round(v)) for v in vals]), where)
+    ff = H.f.get('shift') or 'f8'
+    if ff == 'f4' and not g14.dyadic(vals):
+        ff = 'f8'
+    return H.keep(g14.float_arg(ff, vals), where)
+
+
 @with_scale_diagnosis
 def oracle_fault(case):
     import atomman as am
@@ -1285,18 +1864,29 @@ def oracle_fault(case):
     setting = cell['setting']
     h3 = plane3(hkl)
     S = cell_S(cell)
-    labels = {cell['family'], 'setting_' + setting, 'cut_' + cut} | scale_labels(cell)
+    ledger = g14.Ledger(Violation)
+    caller = bool(case.get('caller'))
+    H = Hand(case.get('forms'), ledger, caller)
+    labels = ({cell['family'], 'setting_' + setting, 'cut_' + cut} | scale_labels(cell) | class_labels(cell) | store_labels(u)
+              | H.labels())
     if setting != 'p':
         labels.add('centred')
     if len(hkl) == 4:
         labels.add('hex4')
     ucell, Vp, upos = build_ucell(am, u)
-    sf, what = construct(am, StackingFault, case, u, ucell, labels)
+    snap_pos, snap_v = np.array(ucell.atoms.pos), np.array(ucell.box.vects)
+    sf, what = construct(am, StackingFault, case, u, ucell, labels, H=H)
     if sf is None:
         return labels
+    if H.f.get('hkl'):
+        what += ' [hkl handed in as %s]' % H.f['hkl']
     rows = rows_from_uvws(sf.uvws, setting, what)
     geo = Geometry(u, hkl, cut, rows)
     judge_rows(geo, what)
+    labels |= rows_labels(rows)
+    ledger.add_system(sf.rcell, 'the rcell attribute of ' + what)
+    for nm in ('shifts', 'uvws', 'transform'):
+        ledger.add_array(getattr(sf, nm), 'the %s attribute of %s' % (nm, what))
     ci = geo.ci
     i1, i2 = AIDX[cut]
     uv = np.asarray(sf.uvws, dtype=float)
@@ -1308,12 +1898,13 @@ def oracle_fault(case):
         c1, c2 = p * uv[i1] + q * uv[i2], r * uv[i1] + t * uv[i2]
         if custom['bad']:
             c1 = c1 + uv[ci]
-        cust_kw = {'a1vect_uvw': [float(x) for x in c1], 'a2vect_uvw': [float(x) for x in c2]}
+        cust_kw = {'a1vect_uvw': uvw_arg(H, c1, 'a1vect_uvw'), 'a2vect_uvw': uvw_arg(H, c2, 'a2vect_uvw')}
         A1, A2 = p * geo.B0[i1] + q * geo.B0[i2], r * geo.B0[i1] + t * geo.B0[i2]
         labels.add('custom_avect')
         if custom['where'] == 'init':
             try:
-                sf = StackingFault(hkl, ucell, cutboxvector=cut, conventional_setting=setting, **tol_arg(StackingFault, cell), **cust_kw)
+                sf = StackingFault(H.hkl(hkl), ucell, cutboxvector=cut, conventional_setting=setting, **tol_arg(StackingFault, cell), **cust_kw)
+                ledger.add_system(sf.rcell, 'the rcell attribute of the object built with shift vectors')
             except ValueError as e:
                 if not custom['bad'] and 'not in fault plane' in str(e) and cell.get('lscale') \
                         and avect_twin(am, StackingFault, case, u, cust_kw) == 'accepts':
@@ -1357,8 +1948,9 @@ def oracle_fault(case):
         if step.get('fpos') is not None:
             extra['faultpos_rel'] = step['fpos']
             explicit_pos = True
-        psys, cur = run_step(sf, step, cur, S=S, **extra)
+        psys, cur = run_step(sf, step, cur, S=S, H=H, **extra)
         prev_natoms = psys.natoms
+        ledger.add_system(psys, 'earlier surface() call #%d' % j)
         if step['shiftmode'].startswith('set_shift'):
             labels.add('history_set_shift')
         after = step.get('after')
@@ -1378,7 +1970,7 @@ def oracle_fault(case):
                 if after['fpos'] is not None:
                     fk['faultpos_rel'] = after['fpos']
                     explicit_pos = True
-                sf.fault(**fk)
+                ledger.add_system(sf.fault(**fk), 'fault() between the surface() calls')
                 labels.add('history_fault_between')
     if setter_at == len(prior):
         if not apply_setter():
@@ -1394,25 +1986,28 @@ def oracle_fault(case):
     sm = case['sizemults']
     nsh = len(sf.shifts)
     fshift = hist.get('final_shift', 'index')
-    kw, cur = shift_arg(sf, fshift, case['shiftsel'] % nsh, cur)
+    kw, cur = shift_arg(sf, fshift, case['shiftsel'] % nsh, cur, H)
     if fshift.startswith('set_shift'):
         labels.add('history_set_shift')
         what = '%s.%s(#%d)' % (what, fshift, cur)
     elif fshift == 'none' and prior:
         labels.add('history_shift_persisted')
     if sm is not None:
-        kw['sizemults'] = [mult_arg(m) for m in sm]
+        kw['sizemults'] = H.mults(sm)
     if case['minwidth'] is not None:
-        kw['minwidth'] = case['minwidth'] * S
+        kw['minwidth'] = H.num(case['minwidth'] * S)
     if case['even']:
         kw['even'] = True
     if case['vacuum'] is not None:
-        kw['vacuumwidth'] = float(case['vacuum']) * S
+        kw['vacuumwidth'] = H.num(float(case['vacuum']) * S)
     w0 = '%s.surface(%s)' % (what, ', '.join('%s=%r' % kv for kv in sorted(kw.items())))
-    base_sys = sf.surface(**dict(kw, sizemults=list(kw['sizemults'])) if 'sizemults' in kw else kw)
+    base_sys = surface_call(sf, kw, H, w0)
+    ledger.add_system(base_sys, w0)
     sh_now = np.asarray(sf.shift, dtype=float)
     sh_exp = np.asarray(sf.shifts, dtype=float)[cur]
-    require(sh_now.shape == (3,) and np.abs(sh_now - sh_exp).max() <= 1e-9 * geo.L,
+    # a shift vector handed in as a float32 array IS the numbers it holds: 1e-9 against the request, 1e-6 against the table
+    sh_req = sh_exp if H.vec_abs is None else H.vec_abs
+    require(sh_now.shape == (3,) and np.abs(sh_now - sh_req).max() <= 1e-9 * geo.L and np.abs(sh_now - sh_exp).max() <= 1e-6 * geo.L,
             lambda: '%s: shift attribute %r, the termination in force is shifts[%d] = %r' % (w0, sh_now.tolist(), cur, sh_exp.tolist()))
     if prev_natoms is not None and prev_natoms != base_sys.natoms:
         labels.add('history_natoms_changed')
@@ -1451,15 +2046,25 @@ def oracle_fault(case):
         if len(Lx) >= 2:
             gi = fp['gapsel'] % (len(Lx) - 1)
             fpv = float(Lx[gi] + fp['frac'] * (Lx[gi + 1] - Lx[gi]))
+            nr = fp.get('near')
+            if nr:
+                # class E: the plane a hair (1e-6 ... 1e-3 of the slab width, 10 ... 1e4 times the band in which rounding decides)
+                # above the lower / below the upper atomic layer of the gap
+                dnear = 10.0 ** int(nr['e']) * width
+                if dnear < 0.45 * (Lx[gi + 1] - Lx[gi]):
+                    fpv = float(Lx[gi] + dnear) if nr['side'] == 0 else float(Lx[gi + 1] - dnear)
+                    labels.add('fpos_near_layer')
         else:
             labels.add('onelayer')
             fpv = float(Lx[0] + (0.3 if fp['gapsel'] % 2 else -0.3) * min(Lx[0] - o[ci], o[ci] + width - Lx[0]))
+        fnum = H.num if H.f.get('num') != 'np4' else (lambda x_: g14.scalar_arg('np8', x_))       # a position between layers is not a float32 number
         if mode == 'cart':
-            fkw['faultpos_cart'] = fpv
+            fkw['faultpos_cart'] = fnum(fpv)
         else:
-            fkw['faultpos_rel'] = float((fpv - o[ci]) / width)
+            fkw['faultpos_rel'] = fnum(float((fpv - o[ci]) / width))
         if fp['where'] == 'surface':
-            base_sys = sf.surface(**dict(kw, sizemults=[mult_arg(m) for m in sm], **fkw) if sm is not None else dict(kw, **fkw))
+            base_sys = surface_call(sf, dict(kw, sizemults=H.mults(sm), **fkw) if sm is not None else dict(kw, **fkw), H, w0)
+            ledger.add_system(base_sys, w0 + ' again with %r' % fkw)
             require(np.array_equal(np.asarray(base_sys.atoms.pos), base), lambda: '%s: rebuilding the same surface with %r gave other positions' % (w0, fkw))
             fkw = {}
     # ---- the fault
@@ -1467,28 +2072,32 @@ def oracle_fault(case):
     e = np.zeros(3)
     e[ci] = 1.0
     skw = {}
-    if sh['kind'] in ('a12', 'a12out', 'lattice'):
+    hair = sh['kind'] in ('a12near', 'decades')
+    # numbers handed in as numpy scalars ARE the numbers they hold (float32: the request is the rounded value); a hair is no float32 number
+    snum = H.num if not (hair and H.f.get('num') == 'np4') else (lambda x_: g14.scalar_arg('np8', x_))
+    if sh['kind'] in ('a12', 'a12out', 'lattice', 'a12near') or (sh['kind'] == 'decades' and sh['via'] == 'a12out'):
         if sh.get('a1') is not None:
-            skw['a1'] = sh['a1']
+            skw['a1'] = snum(sh['a1']) if not isinstance(sh['a1'], int) or H.f.get('num') else sh['a1']
         if sh.get('a2') is not None:
-            skw['a2'] = sh['a2']
+            skw['a2'] = snum(sh['a2']) if not isinstance(sh['a2'], int) or H.f.get('num') else sh['a2']
         if 'out' in sh:
-            skw['outofplane'] = sh['out'] * S                    # 'given in absolute units'
-        expected = (sh.get('a1') or 0.0) * A1 + (sh.get('a2') or 0.0) * A2 + sh.get('out', 0.0) * S * e
-    elif sh['kind'] == 'faultshift':
-        skw['faultshift'] = np.array(sh['vec'], dtype=float) * S
-        expected = np.array(sh['vec'], dtype=float) * S
+            skw['outofplane'] = snum(sh['out'] * S)                    # 'given in absolute units'
+        expected = (float(skw.get('a1', 0.0)) * A1 + float(skw.get('a2', 0.0)) * A2 + float(skw.get('outofplane', 0.0)) * e)
+    elif sh['kind'] == 'faultshift' or sh['kind'] == 'decades':
+        fform = H.f.get('shift') if not (hair and H.f.get('shift') == 'f4') else 'f8'
+        skw['faultshift'] = H.keep(g14.float_arg(fform or 'f8', np.array(sh['vec'], dtype=float) * S), 'faultshift')
+        expected = g14.request(skw['faultshift'])
     else:
         expected = np.zeros(3)
     if case['minimum_r'] is not None:
-        skw['minimum_r'] = case['minimum_r'] * S
+        skw['minimum_r'] = H.num(case['minimum_r'] * S)
     pf = hist.get('pre_fault')
     if pf is not None:
         # an earlier fault() on the final surface; it may move the fault plane only when the judged call places its own
         pk = {'a1': pf['a1'], 'a2': pf['a2']}
         if pf['fpos'] is not None and fkw:
             pk['faultpos_rel'] = pf['fpos']
-        sf.fault(**pk)
+        ledger.add_system(sf.fault(**pk), 'an earlier fault() on the same surface')
         labels.add('history_pre_fault')
     allkw = dict(skw, **fkw, **cust_kw)
     w1 = '%s.fault(%s)' % (w0, ', '.join('%s=%r' % (k_, v.tolist() if isinstance(v, np.ndarray) else v) for k_, v in sorted(allkw.items())))
@@ -1499,6 +2108,9 @@ def oracle_fault(case):
             labels.add('refusal_avect')
             return labels
         raise
+    ledger.add_system(fsys, w1)
+    if caller:
+        ledger.verify_inputs(' by ' + w1)          # class B: the arguments are bit-identical after the call
     if custom is not None and custom['bad'] and cust_kw:
         bad_avect_accepted(am, StackingFault, case, u, cust_kw, '%s accepted a shift vector that leaves the plane' % w1)
     fpc = float(sf.faultpos_cart)
@@ -1540,6 +2152,26 @@ def oracle_fault(case):
     nab, nbe = int((side == 1).sum()), int((side == 0).sum())
     if nab and nbe:
         labels.add('both_sides')
+    if sh['kind'] == 'decades':
+        # class F: the components of the request span 8+ decades.  The shift is ADDED to the stored positions (and the slab wrapped
+        # in the plane): each atom's displacement is the request to within the rounding of its own coordinates, so the smallest
+        # component (1e-9 of the largest) is resolved; and it is the displacement of the call that asks for it alone
+        tolF = 1e-12 * max(float(np.abs(base).max()), float(np.abs(B).max()), float(np.abs(o).max()))
+        displacement_check(base, new, side, expected, B, ci, tolF, w1 + ' [components over 8+ decades, rounding-level tolerance]')
+        if sh['via'] == 'faultshift':
+            nzc = [j for j in range(3) if expected[j] != 0.0]
+            j = min(nzc, key=lambda j_: abs(expected[j_]))
+            alone = np.zeros(3)
+            alone[j] = expected[j]
+            akw = {'faultshift': alone.copy()}
+        else:
+            alone = float(skw['a1']) * A1
+            akw = {'a1': skw['a1']}
+        w1a = '%s then .fault(%s)' % (w1, ', '.join('%s=%r' % (k_, v.tolist() if isinstance(v, np.ndarray) else v) for k_, v in sorted(akw.items())))
+        fsys_a = ledger.add_system(sf.fault(**akw), w1a)
+        displacement_check(base, np.array(fsys_a.atoms.pos, dtype=float), side, alone, B, ci, tolF, w1a + ' [the smallest component alone]')
+        if nab and nbe:
+            labels.add('decades')
     if sh['kind'] == 'lattice' and case['minimum_r'] is None:
         # full in-plane lattice vector: the perfect (unfaulted) slab is restored as a set of atoms
         mt = cm.Motif(B, o, base, 1e-6 * max(S, geo.L))
@@ -1559,7 +2191,9 @@ def oracle_fault(case):
     # ---- iterfaultmap
     if case['itermap'] is not None and not (custom is not None and custom['bad']):
         n1, n2 = case['itermap']
-        out = list(sf.iterfaultmap(num_a1=n1, num_a2=n2))
+        out = list(sf.iterfaultmap(num_a1=H.idx(n1), num_a2=H.idx(n2)))
+        for a1, a2, sy in out:
+            ledger.add_system(sy, '%s.iterfaultmap(%d, %d) at a1=%r a2=%r' % (w0, n1, n2, a1, a2))
         require(len(out) == n1 * n2, lambda: '%s.iterfaultmap(%d, %d) yielded %d systems' % (w0, n1, n2, len(out)))
         seen = set()
         for a1, a2, sy in out:
@@ -1571,11 +2205,172 @@ def oracle_fault(case):
                                '%s.iterfaultmap(%d, %d) at a1=%r a2=%r' % (w0, n1, n2, a1, a2))
         require(len(seen) == n1 * n2, lambda: '%s.iterfaultmap(%d, %d): grid points repeated' % (w0, n1, n2))
         labels.add('itermap')
+    # ---- class A: everything handed out during the case is what it was when it was handed out (and judged), also after another
+    # object was built on the same unit cell and used
+    if case.get('other'):
+        oth = case['other']
+        sf2 = StackingFault(list(hkl), ucell, cutboxvector=cut, conventional_setting=setting, shiftindex=oth['sel'] % nsh,
+                            **tol_arg(StackingFault, cell))
+        m2 = [1, 1, 1]
+        m2[ci] = int(oth['mult'])
+        ledger.add_system(sf2.surface(sizemults=m2), 'surface() of a second StackingFault object on the same unit cell')
+        ledger.add_system(sf2.fault(a1=oth['a1'], a2=0.5), 'fault() of a second StackingFault object on the same unit cell')
+        ledger.add_system(sf2.rcell, 'rcell of a second StackingFault object on the same unit cell')
+        labels.add('ledger_other')
+    require(np.array_equal(np.asarray(ucell.atoms.pos), snap_pos) and np.array_equal(np.asarray(ucell.box.vects), snap_v),
+            lambda: '%s: the unit cell was modified' % what)
+    ledger.verify(' at the end of the case')
+    if len(ledger.systems) >= 4:
+        labels.add('ledger')
+    if caller:
+        # class B.  The caller overwrites in place what it handed in (index / multiplier / shift-vector arrays and lists), the systems
+        # handed out (the faulted system included) and the unit cell (in place and through the setter), then asks for the same fault
+        # again with fresh arguments: it must come out bit for bit as before.  The surface system itself is the object's documented
+        # `system` attribute and is left alone.
+        snap_f = g14.Ledger.snap_system(fsys)
+        shift_before = np.array(sf.shift, dtype=float)
+        caller_overwrites(H, ledger)
+        if not np.array_equal(np.asarray(sf.shift, dtype=float), shift_before):
+            raise Violation('%s: after the caller overwrote the array it had passed as shift, the shift attribute of the object is %r '
+                            '(it was %r): set_shift keeps the caller\'s array instead of its values'
+                            % (what, np.asarray(sf.shift).tolist(), shift_before.tolist()), key=K_SHIFT)
+        for system, _, _ in ledger.systems:
+            if system is not sf.rcell and system is not sf.system:
+                ledger.drop(system)
+                system.atoms.pos[...] = np.asarray(system.atoms.pos) * 0.5 + 1.25
+                system.box_set(vects=np.asarray(system.box.vects) * 2.0)
+        scribble_ucell(ucell)
+        akw = {}
+        for k_ in ('a1', 'a2', 'outofplane', 'minimum_r'):
+            if k_ in skw:
+                akw[k_] = float(skw[k_])
+        if 'faultshift' in skw:
+            akw['faultshift'] = expected.copy()
+        again = sf.fault(**akw)
+        now = g14.Ledger.snap_system(again)
+        for k_ in ('pos', 'atype', 'vects', 'origin', 'pbc'):
+            require(now[k_].shape == snap_f[k_].shape and np.array_equal(now[k_], snap_f[k_]),
+                    lambda: '%s: asked again (fault(%s)) after the caller overwrote its arguments, the systems handed out and the unit cell: '
+                    '%s differs (max %.3g)' % (w1, ', '.join('%s=%r' % kv for kv in sorted(akw.items())), k_,
+                                              float(np.abs(now[k_].astype(float) - snap_f[k_].astype(float)).max())
+                                              if now[k_].shape == snap_f[k_].shape else -1.0))
+        ledger.verify(' after the caller overwrote what it had handed in')
+        labels.add('caller_mut')
     labels.add('fpos_' + mode)
     labels.add('kind_' + sh['kind'])
     if is_nt_plane(cell, h3):
         labels.add('nt')
     labels.add('built')
+    return labels
+
+
+# ----------------------------------------------------------------------------- class H: option combinations, enumerated
+
+OPT_BASES = [
+    # hcp-like two-atom cell, basal plane in Miller-Bravais indices: two atomic layers per period, several terminations
+    {'ucell': {'cell': {'family': 'hexagonal', 'abc': GENERIC['hexagonal'], 'setting': 'p', 'rot': None, 'lscale': 0},
+               'atoms': [[0.0, 0.0, 0.0], [1.0 / 3.0, 2.0 / 3.0, 0.5]], 'types': [1, 1]}, 'hkl': [0, 0, 0, 1], 'cut': 'c'},
+    # fcc given by its primitive cell, (111) of the conventional cell: three terminations, tilted cut vector
+    {'ucell': {'cell': {'family': 'cubic', 'abc': GENERIC2['cubic'], 'setting': 'f', 'rot': None, 'lscale': 0},
+               'atoms': [[0.0, 0.0, 0.0]], 'types': [1]}, 'hkl': [1, 1, 1], 'cut': 'c'},
+    # thorough tier only
+    {'ucell': {'cell': {'family': 'monoclinic', 'abc': GENERIC['monoclinic'], 'setting': 'p', 'rot': None, 'lscale': 0},
+               'atoms': [[0.0, 0.0, 0.0], [0.25, 0.5, 0.13037], [0.61737, 0.25, 0.5]], 'types': [1, 2, 1]}, 'hkl': [0, 1, 0], 'cut': 'b'},
+    {'ucell': {'cell': {'family': 'cubic', 'abc': GENERIC['cubic'], 'setting': 'i', 'rot': [[1, 2, 3], 37.5], 'lscale': -10},
+               'atoms': [[0.0, 0.0, 0.0]], 'types': [1]}, 'hkl': [1, 1, 0], 'cut': 'a'},
+    {'ucell': {'cell': {'family': 'orthorhombic', 'abc': GENERIC['orthorhombic'], 'setting': 'p', 'rot': None, 'lscale': 0,
+                        'perm': [[2, 0, 1], [1, 1, 1]]},
+               'atoms': [[0.0, 0.0, 0.0], [0.5, 0.5, 0.25], [0.0, 0.5, 0.61737]], 'types': [1, 1, 2]}, 'hkl': [0, 0, 1], 'cut': 'c'},
+]
+
+
+def _opt_fault(base, n, cutmult=2, minwidth=None, even=False, vacuum=None, fmode='default', fwhere='surface', shift=None,
+               minimum_r=None, custom=None, prior=(), final_shift='index', pre_fault=None):
+    ci = CUTIDX[base['cut']]
+    mults = [2, [-1, 1], 1]
+    mults[ci] = cutmult
+    return {'opt': 'fault', 'ucell': base['ucell'], 'hkl': base['hkl'], 'cut': base['cut'], 'sizemults': mults, 'minwidth': minwidth,
+            'even': even, 'vacuum': vacuum, 'shiftsel': n, 'fpos': {'mode': fmode, 'where': fwhere, 'gapsel': n, 'frac': (0.5, 0.25, 0.8)[n % 3]},
+            'shift': shift or {'kind': 'a12', 'a1': 0.3, 'a2': -0.45}, 'custom': custom, 'minimum_r': minimum_r, 'itermap': None,
+            'outside': False, 'history': {'prior': list(prior), 'final_shift': final_shift, 'pre_fault': pre_fault},
+            'caller': n % 4 == 1}
+
+
+def _opt_step(ci, n, after=None, fpos=None, mode='index'):
+    mults = [1, 1, 1]
+    mults[ci] = (2, -1, 3)[n % 3]
+    return {'sizemults': mults, 'minwidth': None, 'even': False, 'vacuum': (None, 5.0)[n % 2], 'shiftsel': n, 'shiftmode': mode,
+            'fpos': fpos, 'after': after}
+
+
+def enum_options(tier):
+    """Every combination of the options that touch the same state of one object, and the state-changing calls in every order
+    (class H).  G1: what decides the slab along the cut vector and where the fault plane ends up in it (multiplier sign x minwidth x
+    even x vacuum x fault position default / relative / Cartesian, given to surface() or to fault()).  G2: what decides the shift
+    vector (a1, a2 [, outofplane] | faultshift) x minimum_r x user shift vectors given to the constructor / the setters / fault()
+    x fault position.  G3: how the termination is chosen in the constructor (nothing, index, vector, box-relative vector) x how
+    surface() chooses or keeps it x multiplier sign.  Orders: two earlier surface() calls followed by every ordered pair of
+    {faultpos_rel setter, faultpos_cart setter, fault(), nothing} with the shift-vector setters before, between or after them."""
+    bases = OPT_BASES[:2] if tier == 'quick' else OPT_BASES
+    cases = []
+    n = 0
+    for bi, base in enumerate(bases):
+        ci = CUTIDX[base['cut']]
+        for cutmult in (2, -3):
+            for minwidth in (None, 17.0):
+                for even in (False, True):
+                    for vacuum in (None, 7.25):
+                        for fmode, fwhere in (('default', 'surface'), ('rel', 'surface'), ('cart', 'surface'), ('rel', 'fault'), ('cart', 'fault')):
+                            n += 1
+                            cases.append(_opt_fault(base, n, cutmult=cutmult, minwidth=minwidth, even=even, vacuum=vacuum,
+                                                    fmode=fmode, fwhere=fwhere))
+        for shift in ({'kind': 'a12', 'a1': 0.3, 'a2': -0.45}, {'kind': 'a12out', 'a1': -0.7, 'a2': 0.2, 'out': 0.5},
+                      {'kind': 'faultshift', 'vec': [0.8, -1.3, 0.4]}):
+            for minimum_r in (None, 2.5):
+                for cwhere in (None, 'init', 'setter', 'fault'):
+                    for fmode, fwhere in (('default', 'surface'), ('rel', 'fault'), ('cart', 'surface')):
+                        n += 1
+                        custom = None if cwhere is None else {'combo': [[1, 1], [0, 1]], 'where': cwhere, 'bad': False, 'at': n}
+                        cases.append(_opt_fault(base, n, cutmult=(3, -2)[n % 2], vacuum=(None, 5.0)[(n // 2) % 2], fmode=fmode, fwhere=fwhere,
+                                                shift=dict(shift), minimum_r=minimum_r, custom=custom))
+        if tier != 'quick' or bi == 0:
+            for imode in (None, 'index', 'vector', 'scaled'):
+                for smode in ('index', 'vector', 'scaled', 'set_shift', 'set_shift_vector', 'init'):
+                    for cutmult in (2, -2):
+                        n += 1
+                        mults = [1, [0, 2], 1]
+                        mults[ci] = cutmult
+                        c = {'opt': 'surface', 'ucell': base['ucell'], 'hkl': base['hkl'], 'cut': base['cut'], 'sizemults': mults,
+                             'minwidth': None, 'even': False, 'vacuum': (None, 5.0)[n % 2], 'shiftsel': n, 'shiftmode': smode,
+                             'history': {'prior': [_opt_step(ci, n)] if n % 3 == 0 else []}, 'caller': n % 4 == 1}
+                        if imode:
+                            c['init'] = {'mode': imode, 'sel': n // 2 + 1}
+                        cases.append(c)
+        if tier != 'quick' or bi == 1:
+            afters = ({'op': 'set_rel', 'v': 0.25}, {'op': 'set_cart', 'v': 0.62}, {'op': 'fault', 'a1': 0.4, 'a2': 0.1, 'fpos': 0.75}, None)
+            for a0 in afters:
+                for a1 in afters:
+                    for at in (0, 1, 2):
+                        n += 1
+                        prior = [_opt_step(ci, n, after=a0, fpos=(None, 0.4)[n % 2]), _opt_step(ci, n + 1, after=a1, mode='set_shift')]
+                        custom = {'combo': [[1, 0], [1, 1]], 'where': 'setter', 'bad': False, 'at': at}
+                        cases.append(_opt_fault(base, n, cutmult=3, fmode=('default', 'rel')[n % 2], fwhere='fault', custom=custom,
+                                                prior=prior, final_shift=('none', 'index', 'set_shift')[n % 3],
+                                                pre_fault={'a1': 0.5, 'a2': 0.5, 'fpos': 0.3} if n % 4 == 0 else None))
+    N = len(cases)
+    step = next(q for q in (7919, 7907, 7901, 7883, 7879, 7877) if math.gcd(q, N) == 1)
+    cases = [cases[(i * step) % N] for i in range(N)]
+    scale = float(os.environ.get('VERIF_SCALE', '1'))
+    if scale < 1:
+        cases = cases[::int(math.ceil(1.0 / scale))]
+    return cases
+
+
+def oracle_options(case):
+    labels = set(oracle_surface(case) if case['opt'] == 'surface' else oracle_fault(case))
+    labels.add('opt_' + case['opt'])
+    if 'built' in labels:
+        labels.add('opt_built')
     return labels
 
 
@@ -1590,27 +2385,52 @@ def _unit_guards(scaled_blocked, near, scaled, si):
     return {'scaled': scaled, 'scale_near': near, 'scale_si': si}
 
 
+def _caller_guards(blocked, free, shift_out=None):
+    """min_share guards of the caller-side mutation class (B).  While the two aliasing findings (K_SIZEMULTS, K_SHIFT) are listed
+    open, the cases that meet them are excluded-and-counted and carry no labels: only what survives can be guarded."""
+    from ..core import load_known
+    known = load_known('C14')[0]
+    if K_SIZEMULTS in known or K_SHIFT in known:
+        return {'caller_mut': blocked}
+    out = {'caller_mut': free}
+    if shift_out:
+        out['caller_mut_shift_out'] = shift_out
+    return out
+
+
+# guards of the generator classes carried over from the seeded rounds: half of the observed shares (seed 1, /repo with the two
+# aliasing findings open, i.e. the smaller of the shares before / after their repair)
 CLAUSES = [
     Clause('basis', oracle_basis, enumerate=enum_basis, max_share={'refusal': 0.08},
-           min_share=dict({'nt': 0.4, 'centred': 0.06, 'hex_4': 0.04}, **_unit_guards(0.04, 0.025, 0.12, 0.035)),
+           min_share=dict({'nt': 0.4, 'centred': 0.06, 'hex_4': 0.04,
+                           'ledger': 0.5, 'hkl_form': 0.15, 'hkl_narrow': 0.045, 'hkl_float': 0.03, 'hkl_layout': 0.02, 'caller_mut': 0.025,
+                           'sym': 0.013, 'sym_perm': 0.009, 'sym_relabel': 0.009, 'near_sym': 0.009},
+                          **_unit_guards(0.04, 0.025, 0.12, 0.035)),
            desc='free_surface_basis on every plane up to the index bound x cutboxvector in a generic cell per family, centred '
                 'settings, Miller-Bravais: integer, right-handed, zone law exact, out-of-plane row on the normal side, normal = +g'),
-    Clause('basis_random', oracle_basis_random, basis_random_cases, quick=640, thorough=12000,
-           min_share=dict({'nt': 0.35, 'centred': 0.1, 'rigid_rot': 0.15}, **_unit_guards(0.1, 0.03, 0.23, 0.11)),
+    Clause('basis_random', oracle_basis_random, basis_random_cases, quick=560, thorough=13000,
+           min_share=dict({'nt': 0.35, 'centred': 0.1, 'rigid_rot': 0.15,
+                           'hkl_form': 0.2, 'hkl_narrow': 0.1, 'caller_mut': 0.1, 'ledger': 0.1, 'sym': 0.13, 'sym_perm': 0.1,
+                           'sym_relabel': 0.04, 'near_sym': 0.035}, **_unit_guards(0.1, 0.03, 0.23, 0.11)),
            max_share={'refusal': 0.15},
            desc='the same oracle on random cells of every family / centred setting (30 % rigidly rotated), planes up to index 4'),
-    Clause('surface', oracle_surface, surface_cases, quick=570, thorough=10000,
+    Clause('surface', oracle_surface, surface_cases, quick=520, thorough=11500,
            min_share=dict({'nt': 0.2, 'built': 0.4, 'multilayer': 0.2, 'multishift': 0.3, 'vacuum': 0.12, 'minwidth_decides': 0.06,
                            'negmult': 0.12, 'tuplemult': 0.12, 'centred': 0.12, 'hex4': 0.02, 'cut_a': 0.07, 'cut_b': 0.07,
                            'history_second_surface': 0.26, 'history_third_surface': 0.1, 'history_shift_persisted': 0.07,
-                           'history_set_shift': 0.16, 'history_defaults_after_given': 0.14},
-                          **_unit_guards(0.09, 0.04, 0.23, 0.08)),
+                           'history_set_shift': 0.16, 'history_defaults_after_given': 0.14,
+                           # classes carried over from the seeded rounds
+                           'ledger': 0.26, 'ledger_other': 0.04, 'forms': 0.09, 'hkl_form': 0.085, 'hkl_narrow': 0.04, 'shift_form': 0.08,
+                           'mults_form': 0.065, 'npscalar_form': 0.08, 'store': 0.085, 'store_narrow_float': 0.045, 'store_layout': 0.04,
+                           'near_layer': 0.03, 'near_layer_judged': 0.018, 'minwidth_near': 0.05, 'minwidth_exact': 0.02, 'near_sym': 0.035,
+                           'sym': 0.075, 'sym_perm': 0.06, 'sym_relabel': 0.025, 'rows_signed_perm': 0.045},
+                          **_caller_guards(0.02, 0.08, 0.02), **_unit_guards(0.09, 0.04, 0.23, 0.08)),
            max_share={'refusal_search': 0.25, 'refusal_cut': 0.4, 'layer_ambiguous': 0.05, 'c04_filtering_skip': 0.02},
            desc='FreeSurface: chosen vectors, transform, rcellwidth; all offered shifts halfway between atomic planes, one per gap; built '
                 'systems: pbc, box = multipliers x oriented cell, same crystal by map-back with multiplicity, cut between planes, '
                 'minwidth/even/sizemults, vacuum lengthens the cut vector only, surfacearea; in half of the cases after one or two '
                 'earlier surface() / set_shift() calls with other arguments on the same object (only the shift persists)'),
-    Clause('fault', oracle_fault, fault_cases, quick=570, thorough=10000,
+    Clause('fault', oracle_fault, fault_cases, quick=520, thorough=11500,
            min_share={'nt': 0.2, 'built': 0.4, 'shifted': 0.3, 'both_sides': 0.35, 'lattice_nonzero': 0.05, 'custom_avect': 0.1,
                       'onplane_exact': 0.015, 'itermap': 0.07, 'refusal_avect': 0.025, 'kind_faultshift': 0.03, 'fpos_rel': 0.12,
                       'a1_only': 0.06, 'centred': 0.12,
@@ -1618,11 +2438,27 @@ CLAUSES = [
                       'history_faultpos_defaulted_after_default': 0.015, 'history_natoms_changed': 0.23,
                       'history_setter_faultpos': 0.12, 'history_fault_between': 0.075, 'history_setter_avect': 0.02,
                       'history_shift_persisted': 0.05, 'history_set_shift': 0.17, 'history_pre_fault': 0.08,
-                      **_unit_guards(0.09, 0.045, 0.24, 0.09)},
+                      # classes carried over from the seeded rounds
+                      'ledger': 0.28, 'ledger_other': 0.05, 'forms': 0.08, 'hkl_form': 0.075, 'hkl_narrow': 0.04, 'shift_form': 0.065,
+                      'mults_form': 0.04, 'npscalar_form': 0.07, 'store': 0.065, 'store_narrow_float': 0.035, 'fpos_near_layer': 0.015,
+                      'kind_a12near': 0.02, 'decades': 0.015, 'near_sym': 0.045, 'sym': 0.1, 'sym_perm': 0.085, 'sym_relabel': 0.04,
+                      'rows_signed_perm': 0.05,
+                      **_caller_guards(0.08, 0.12), **_unit_guards(0.09, 0.045, 0.24, 0.09)},
            max_share={'refusal_search': 0.25, 'refusal_cut': 0.4, 'c04_filtering_skip': 0.02, 'atom_on_fault_plane_exempt': 0.15},
            desc='StackingFault.fault: atoms not above the plane stay, atoms above move by a1*a1vect + a2*a2vect + outofplane (or the '
                 'given faultshift) modulo the in-plane cell vectors; full lattice vectors restore the slab; fault positions between '
                 'layers (cart/rel/default, at surface() or fault()); user shift vectors; refusals; iterfaultmap grid; in half of the '
                 'cases after one or two earlier surface() calls on the same object (other termination / size / vacuum / fault position) '
                 'with faultpos and shift-vector setters and fault() calls in between'),
+    Clause('options', oracle_options, enumerate=enum_options, nontrivial='opt_built',
+           min_share=dict({'opt_built': 0.43, 'opt_surface': 0.045, 'opt_fault': 0.41, 'init_index': 0.011, 'init_vector': 0.011,
+                           'init_scaled': 0.011, 'kind_faultshift': 0.06, 'kind_a12out': 0.06, 'custom_avect': 0.19,
+                           'history_setter_avect': 0.1, 'history_setter_faultpos': 0.045, 'history_fault_between': 0.025, 'negmult': 0.03,
+                           'fpos_cart': 0.12, 'fpos_rel': 0.15, 'fpos_default': 0.12, 'ledger': 0.24}, **_caller_guards(0.08, 0.12)),
+           desc='class H, enumerated: every combination of the options that touch the same state of one FreeSurface / StackingFault '
+                'object (multiplier sign x minwidth x even x vacuum x fault position default / relative / Cartesian at surface() or '
+                'fault(); a1, a2, outofplane | faultshift x minimum_r x user shift vectors at the constructor / setters / fault() x '
+                'fault position; termination chosen in the constructor by nothing / index / vector / box-relative vector x chosen or '
+                'kept by surface() in six ways x multiplier sign) and the state-changing calls in every order, judged by the surface '
+                'and fault oracles'),
 ]
